@@ -24,6 +24,7 @@ static const char* kShape[] = {
   /*12*/ "{\"a\":@,\"b\":{\"a\":@}}", /*13*/ "{\"a\\n\":@,\"a\":@}", /*14*/ "{\"b\":[@,@],\"a\":@}", /*15*/ "[[@,@]]",
   /*16*/ "{\"a\":{\"b\":@},\"b\":@}", /*17*/ "{\"a\":{\"b\":{\"a\":@}},\"b\":@}", /*18*/ "{\"a\":{\"a\":@,\"b\":{\"a\":@}},\"b\":@}",
   /*19*/ "{\"a\":{\"a\":@,\"b\":1},\"b\":2}", /*20*/ "{\"a\":{\"a\":@,\"b\":{\"a\":3}},\"b\":4}",
+  /*21*/ "{\"b\":{},\"a\":@}", /*22*/ "{\"b\":[{\"k\":@},[{}]],\"a\":1}", /*23*/ "{\"a\":{\"host\":@,\"port\":\"p\"},\"b\":[\"x\",\"y\"]}", /*24*/ "{\"a\":null,\"b\":@}",
 };
 
 // the first slot of a text is one symbolic digit (an integer payload that stays symbolic through every parse and merge);
@@ -119,7 +120,15 @@ extern "C" int h_merge(void) {
       if (doc.HasParseError()) verif_fail("C19: ParseSchema reports an error on a valid text");
       smerge(expect, xdoc, expect.GetAllocator());
       if (!same(doc, expect)) verif_fail("C19: document after ParseSchema differs from the schema merge the property states");
-      if (twice) {
+      if (twice == 2) {
+        // a second, DIFFERENT and shorter text that touches none of the values built by the first call
+        static const char kSecond[] = "{\"zz\":7}";
+        Doc x2; x2.Parse(kSecond, sizeof(kSecond) - 1);
+        doc.ParseSchema(kSecond, sizeof(kSecond) - 1);
+        if (doc.HasParseError()) verif_fail("C19: second ParseSchema (different text) reports an error");
+        smerge(expect, x2, expect.GetAllocator());
+        if (!same(doc, expect)) verif_fail("C19: values built by an earlier ParseSchema changed when a later, unrelated text was parsed");
+      } else if (twice) {
         doc.ParseSchema(xt, xn);
         if (doc.HasParseError()) verif_fail("C19: second ParseSchema reports an error");
         smerge(expect, xdoc, expect.GetAllocator());
@@ -136,7 +145,7 @@ extern "C" int h_merge(void) {
   free(et); free(xt);
 #ifdef ALLOC_SIMPLE
   if (verif_live_heap() != 0)
-    verif_fail(which == 19 && twice ? "C13: heap blocks still allocated after a repeated ParseSchema (the text buffer of the earlier call is never released)"
+    verif_fail(which == 19 && twice == 1 ? "C13: heap blocks still allocated after a repeated ParseSchema (the text buffer of the earlier call is never released)"
                                     : "C13: heap blocks still allocated after every document was destroyed");
 #endif
   return 0;
